@@ -310,11 +310,70 @@ pub fn deliveries(e: &[Ev]) -> Vec<Delivery> {
     out
 }
 
+/// The same recorded evidence, unified once at the end or also once in the
+/// middle. Stage one: the pieces split over two variables that are the
+/// elements of two equated dynamic arrays (so the unifier itself derives that
+/// the two are equal). Stage two: the equality is also stated outright, and
+/// the arrays' class receives a mapping, which makes *it* contradictory - the
+/// stated equality is then the only thing that still holds the two together.
+/// Unification starts from the recorded evidence each time, so the extra run
+/// in the middle must not be observable.
+fn staged_disagreement(e: &[Ev], res: &mut Option<&mut CaseResult>) -> Option<(String, Value)> {
+    for (g1, g2) in splits(e.len()) {
+        let mut j: Vec<(usize, Ev)> = Vec::new();
+        for i in &g1 {
+            j.push((2, e[*i].clone()));
+        }
+        for i in &g2 {
+            j.push((3, e[*i].clone()));
+        }
+        j.push((4, Ev::DynArray { element: 2 }));
+        j.push((5, Ev::DynArray { element: 3 }));
+        j.push((4, Ev::Equal { other: 5 }));
+        let first_stage = j.len();
+        j.push((2, Ev::Equal { other: 3 }));
+        j.push((4, Ev::Mapping { key: 2, value: 3 }));
+        let ev = EvidenceSet {
+            n_vars:     6,
+            judgements: j,
+        };
+        let at_once = run_unify(&ev, &Sched::natural(0), &UnifyOpts::default());
+        let staged = run_unify(
+            &ev,
+            &Sched::natural(0),
+            &UnifyOpts {
+                mode: evidence::Delivery::Staged,
+                staged_at: Some(first_stage),
+                ..UnifyOpts::default()
+            },
+        );
+        if let Some(r) = res.as_deref_mut() {
+            r.runs += 2;
+            r.steps += at_once.polls + staged.polls;
+            r.fault("unified_between_two_deliveries");
+        }
+        let (a, b) = (outcome_of(&at_once, 2), outcome_of(&staged, 2));
+        if a != b {
+            let mut kinds: Vec<String> = e.iter().map(Ev::kind).collect();
+            kinds.sort();
+            let short = |s: &str| s.split(" | ").next().unwrap_or("").to_string();
+            return Some((
+                format!("staged:[{}] delivered at once gives {} but with a unification in between {}", kinds.join(", "), short(&a), short(&b)),
+                json!({"evidence": kinds, "split": [g1, g2], "at_once": a, "staged": b}),
+            ));
+        }
+    }
+    None
+}
+
 /// Runs every delivery of `e`; returns (signature, detail) if they disagree.
 pub fn evaluate(e: &[Ev], res: Option<&mut CaseResult>) -> Option<(String, Value)> {
     let ds = deliveries(e);
     let mut outcomes: Vec<(String, &'static str, String)> = Vec::new();
     let mut res = res;
+    if let Some(found) = staged_disagreement(e, &mut res) {
+        return Some(found);
+    }
     for d in &ds {
         let o = run_unify(&d.ev, &d.sched, &UnifyOpts::default());
         if let Some(r) = res.as_deref_mut() {
@@ -366,12 +425,92 @@ pub fn evaluate(e: &[Ev], res: Option<&mut CaseResult>) -> Option<(String, Value
     Some((sig, json!({"evidence": kinds, "reference_delivery": outcomes[0].2, "reference_outcome": reference, "disagreeing": examples, "all_outcomes": distinct})))
 }
 
+/// Split points of the shared-field scenarios.
+const FIELD_SPLITS: [usize; 5] = [16, 32, 64, 96, 112];
+
+fn shared_field_cases() -> u64 {
+    (FIELD_SPLITS.len() * FIELD_SPLITS.len()) as u64
+}
+
+/// Evidence about one value that is found in two places in the same round: a
+/// 128-bit field `a` of two different words, each of which is also seen with a
+/// layout that cuts the field (at `s1` in one word, at `s2` in the other). Both
+/// refinements are about `a`; they have to be combined whatever order the two
+/// words are folded in, and the result has to be what the same two
+/// refinements give when they are stated about `a` directly.
+fn shared_field(s1: usize, s2: usize, res: &mut CaseResult) -> Option<(String, Value)> {
+    let sp = |v: usize, o: usize, w: usize| (v, o, w);
+    // variables: 0 = a, 1..=6 = b c d e f g, 7 = word 1, 8 = word 2
+    let shared = EvidenceSet {
+        n_vars:     9,
+        judgements: vec![
+            (7, Ev::Packed { spans: vec![sp(0, 0, 128), sp(1, 128, 128)], is_struct: false }),
+            (7, Ev::Packed { spans: vec![sp(2, 0, s1), sp(3, s1, 256 - s1)], is_struct: false }),
+            (8, Ev::Packed { spans: vec![sp(0, 0, 128), sp(4, 128, 128)], is_struct: false }),
+            (8, Ev::Packed { spans: vec![sp(5, 0, s2), sp(6, s2, 256 - s2)], is_struct: false }),
+        ],
+    };
+    // variables: 0 = a, 1..=4 = the parts
+    let direct = EvidenceSet {
+        n_vars:     5,
+        judgements: vec![
+            (0, Ev::Packed { spans: vec![sp(1, 0, s1), sp(2, s1, 128 - s1)], is_struct: false }),
+            (0, Ev::Packed { spans: vec![sp(3, 0, s2), sp(4, s2, 128 - s2)], is_struct: false }),
+        ],
+    };
+    let layout = |o: &UnifyOutcome| -> String {
+        if let Some(p) = &o.panic {
+            return format!("Panic({})", p.signature);
+        }
+        if o.budget_exhausted {
+            return "DidNotTerminate".into();
+        }
+        match o.data[o.class[0]].as_deref() {
+            Some([TE::Packed { types, .. }]) => {
+                let mut l: Vec<(usize, usize)> = types.iter().map(|s| (s.offset, s.size)).collect();
+                l.sort_unstable();
+                format!("{l:?}")
+            }
+            Some(other) => format!("{:?}", other.iter().map(evidence::te_kind).collect::<Vec<_>>()),
+            None => "nothing".into(),
+        }
+    };
+    let mut scheds: Vec<Sched> = (0..8).map(Sched::natural).collect();
+    scheds.push(Sched::adversarial(1, 1000, storage_layout_extractor::verif::MENU_REVERSE));
+    for k in 1..=6 {
+        scheds.push(Sched::adversarial(k, 1000, storage_layout_extractor::verif::MENU_ALL));
+    }
+    let reference = layout(&run_unify(&direct, &Sched::natural(0), &UnifyOpts::default()));
+    res.runs += 1;
+    let mut seen: BTreeSet<String> = BTreeSet::new();
+    let mut example = None;
+    for sched in &scheds {
+        let o = run_unify(&shared, sched, &UnifyOpts::default());
+        res.runs += 1;
+        res.steps += o.polls;
+        res.fold_orders.push(o.record.fold_digest);
+        res.fault("one_value_refined_from_two_classes_in_one_round");
+        let l = layout(&o);
+        if l != reference && example.is_none() {
+            example = Some(sched.label());
+        }
+        seen.insert(l);
+    }
+    if seen.len() == 1 && seen.contains(&reference) {
+        return None;
+    }
+    Some((
+        format!("shared-field:cuts at {s1} and {s2}: stated directly gives {reference}, found in two words gives {{{}}}", seen.iter().cloned().collect::<Vec<_>>().join(" | ")),
+        json!({"cuts": [s1, s2], "direct": reference, "shared": seen, "first_differing_schedule": example}),
+    ))
+}
+
 impl Check for C16Check {
     fn info(&self) -> CheckInfo {
         CheckInfo {
             id: "C16",
             level: "fault_enumeration",
-            rule: "case = one multiset E of distinct pieces from the 38-piece domain (Any, dynamic bytes, 4 free usages x 6 widths, 4 fixed-width usages, Mapping(a,b), Mapping(b,a), DynArray(a), DynArray(b), FixedArray(a)[3], FixedArray(b)[3], FixedArray(a)[5], a conflict): all 703 pairs and all 8436 triples (thorough: also all 73815 quadruples); each E is delivered to the real unifier in all |E|! fold orders (scripted at the fold scheduling point), in all |E|! recording orders, under 2 further hash keys, in every 2-way split over two equated variables, and in every 2-way split over two variables that become equal only in a later round; all deliveries must give the same normalised outcome. evaluations = unifier runs; non-trivial = a multiset whose deliveries folded at least two pieces (all of them); distinct = distinct multisets",
+            rule: "case = one multiset E of distinct pieces from the 38-piece domain (Any, dynamic bytes, 4 free usages x 6 widths, 4 fixed-width usages, Mapping(a,b), Mapping(b,a), DynArray(a), DynArray(b), FixedArray(a)[3], FixedArray(b)[3], FixedArray(a)[5], a conflict): all 703 pairs and all 8436 triples (thorough: also all 73815 quadruples); each E is delivered to the real unifier in all |E|! fold orders (scripted at the fold scheduling point), in all |E|! recording orders, under 2 further hash keys, in every 2-way split over two equated variables, and in every 2-way split over two variables that become equal only in a later round; all deliveries must give the same normalised outcome. Each 2-way split is also delivered with a unification in between two stages (derived equality first, then the same equality stated and the deriving class made contradictory), which must equal the same evidence unified once. 25 further cases: one 128-bit field shared by two words, each word also seen with a layout that cuts the field (at 16/32/64/96/112 bits), under 15 schedules; the field's layout must be the one the two cuts give when stated about the field directly. evaluations = unifier runs; non-trivial = a multiset whose deliveries folded at least two pieces (all of them); distinct = distinct multisets",
             assumptions: &[
                 "merge is only observed through unification::unify, so the check cannot demand more than the system-level statement",
                 "outcomes are compared after erasing conflict payloads and replacing type variables by the class of the named variables a, b",
@@ -382,10 +521,11 @@ impl Check for C16Check {
 
     fn cases(&self, tier: Tier) -> u64 {
         let n = domain().len() as u64;
-        match tier {
-            Tier::Quick => choose(n, 2) + choose(n, 3),
-            Tier::Thorough => choose(n, 2) + choose(n, 3) + choose(n, 4),
-        }
+        shared_field_cases()
+            + match tier {
+                Tier::Quick => choose(n, 2) + choose(n, 3),
+                Tier::Thorough => choose(n, 2) + choose(n, 3) + choose(n, 4),
+            }
     }
 
     fn exhaustive(&self, tier: Tier) -> Option<String> {
@@ -397,7 +537,22 @@ impl Check for C16Check {
 
     fn run_case(&self, idx: u64, seed: u64, tier: Tier) -> CaseResult {
         let mut res = CaseResult::default();
-        let Some(e) = multiset(idx, tier) else { return res };
+        let Some(e) = multiset(idx, tier) else {
+            // The cases after the multisets: the shared-field scenarios.
+            let k = (idx - (self.cases(tier) - shared_field_cases())) as usize;
+            let (s1, s2) = (FIELD_SPLITS[k / FIELD_SPLITS.len()], FIELD_SPLITS[k % FIELD_SPLITS.len()]);
+            res.nontrivial.push(idx);
+            res.probe("shared_field_scenarios");
+            if let Some((sig, detail)) = shared_field(s1, s2, &mut res) {
+                res.violations.push(Violation {
+                    property:  "C16".into(),
+                    signature: sig,
+                    detail:    json!({"case": idx, "explanation": detail}),
+                    replay:    json!({"check": "C16", "kind": "shared_field", "cuts": [s1, s2]}),
+                });
+            }
+            return res;
+        };
         res.nontrivial.push(idx);
         res.probe(&format!("multisets_of_{}", e.len()));
         if let Some((sig, detail)) = evaluate(&e, Some(&mut res)) {
@@ -439,6 +594,17 @@ impl Check for C16Check {
     }
 
     fn replay(&self, payload: &Value) -> Result<Option<Violation>, String> {
+        if payload["kind"].as_str() == Some("shared_field") {
+            let s1 = payload["cuts"][0].as_u64().ok_or("no cuts")? as usize;
+            let s2 = payload["cuts"][1].as_u64().ok_or("no cuts")? as usize;
+            let mut res = CaseResult::default();
+            return Ok(shared_field(s1, s2, &mut res).map(|(sig, detail)| Violation {
+                property: "C16".into(),
+                signature: sig,
+                detail,
+                replay: payload.clone(),
+            }));
+        }
         let e: Vec<Ev> = serde_json::from_value(payload["evidence"].clone()).map_err(|e| e.to_string())?;
         Ok(evaluate(&e, None).map(|(sig, detail)| Violation {
             property:  "C16".into(),
